@@ -2,7 +2,7 @@
     This file contains only the pinned statements; proofs live in ParseProofs/Spelling.v. *)
 From ClapModel Require Import Base.Bytes Base.Machine Base.Utf8.
 From ClapModel Require Import Parse.Cmd Parse.Build Parse.Valid Parse.Matcher Parse.Errors Parse.Validator Parse.Parser.
-From ClapModel Require Import ParseProofs.Spelling.
+From ClapModel Require Import ParseProofs.Spelling ParseProofs.Dispatch ParseProofs.SpellingLine.
 From Coq Require Import ZArith List.
 Import ListNotations.
 Open Scope N_scope.
@@ -178,3 +178,303 @@ Theorem C08_lf_exact_needs_long_flag_refuted : exists c l s,
   possible_long_flag_subcommand c l <> Some (c_name s).
 Proof. exact lf_exact_needs_long_flag_refuted. Qed.
 Print Assumptions C08_lf_exact_needs_long_flag_refuted.
+
+(** whole-line level (ParseProofs/SpellingLine.v): one occurrence rewritten, ARBITRARY rest of the line *)
+
+(** what the relations / classes used below say, spelled out *)
+Theorem C08_res_rel_meaning : forall c r2 r', res_rel c r2 r' ->
+  r2 = r' \/
+  exists s2 s',
+    resolve_pending c s2 = ROk s' /\ fs_skip s2 = 0 /\
+    (forall p, mt_pending (mt s2) = Some p -> forall k b, get_pos c k = Some b -> beq (p_id p) (a_id b) = false) /\
+    ((r2 = ROk (LDone s2) /\ r' = ROk (LDone s')) \/
+     (exists n v rest, r2 = ROk (LSub n false v s2 rest) /\ r' = ROk (LSub n false v s' rest)) \/
+     (exists n vals, r2 = ROk (LExternal n vals s2) /\ r' = ROk (LExternal n vals s')) \/
+     (exists names, r2 = ROk (LHelpSub names s2) /\ r' = ROk (LHelpSub names s'))).
+Proof. exact res_rel_meaning. Qed.
+Print Assumptions C08_res_rel_meaning.
+
+Theorem C08_gmw_rel_meaning : forall r2 r', gmw_rel r2 r' -> r2 = r' \/ exists e t2 t', r2 = RErr e t2 /\ r' = RErr e t'.
+Proof. exact gmw_rel_meaning. Qed.
+Print Assumptions C08_gmw_rel_meaning.
+
+Theorem C08_classes_meaning : forall c,
+  (forall ls tok, flag_site c ls tok <->
+     l_trailing ls = false /\
+     match state_arg c (l_pst ls) with ROk (Some b) => a_hyphen b = false | ROk None => True | _ => False end /\
+     possible_subcommand c tok (l_vaf ls) = None /\ is_escape tok = false) /\
+  (forall a r, single_opt c a r <->
+     a_takes_value a = true /\ a_req_eq a = false /\ find_arg c (a_id a) = Some a /\ a_num a = Some r /\
+     r_accepts_more r 1 = false /\ forall k b, get_pos c k = Some b -> beq (a_id a) (a_id b) = false) /\
+  (forall a v, plain_value a v <->
+     is_escape v = false /\ to_long v = None /\ to_short v = None /\ check_terminator a v = false) /\
+  (forall c0 bin toks, is_set s_no_binary_name c0 = false -> parse_top c0 (bin :: toks) = do_parse (top_cmd c0 bin) toks).
+Proof. exact classes_meaning. Qed.
+Print Assumptions C08_classes_meaning.
+
+(** the bisimulation: a state with one occurrence still pending vs the state in which it has been reacted *)
+Theorem C08_flush_bisim : forall c toks ls s2 s',
+  resolve_pending c s2 = ROk s' ->
+  (forall p, mt_pending (mt s2) = Some p -> forall k b, get_pos c k = Some b -> beq (p_id p) (a_id b) = false) ->
+  fs_skip s2 = 0 ->
+  (forall i, (if l_trailing ls then PSValuesDone else l_pst ls) <> PSOpt i) ->
+  res_rel c (parse_loop c toks ls s2) (parse_loop c toks ls s').
+Proof. exact (fun c toks ls s2 s' R P F L => flush_bisim c toks ls s2 s' (conj R (conj P F)) L). Qed.
+Print Assumptions C08_flush_bisim.
+
+(** one level of [get_matches_with] (hence [do_parse]) cannot tell related loop results apart *)
+Theorem C08_gmw_lift : forall c f X Y st0, is_set s_ignore_errors c = false ->
+  res_rel c (parse_loop c X ls_top st0) (parse_loop c Y ls_top st0) ->
+  gmw_rel (get_matches_with (S f) c X st0) (get_matches_with (S f) c Y st0).
+Proof. exact gmw_lift. Qed.
+Print Assumptions C08_gmw_lift.
+
+Theorem C08_do_parse_lift : forall c0 X Y, is_set s_ignore_errors (build_self c0) = false ->
+  res_rel (build_self c0) (parse_loop (build_self c0) X ls_top ps_new) (parse_loop (build_self c0) Y ls_top ps_new) ->
+  do_parse c0 X = do_parse c0 Y.
+Proof. exact do_parse_lift. Qed.
+Print Assumptions C08_do_parse_lift.
+
+(** [--opt v] = [--opt=v] *)
+Theorem C08_long_space_vs_eq : forall c l v a r tokA tokB rest ls st x0,
+  is_set s_sub_precedence c = false ->
+  flag_site c ls tokA -> flag_site c ls tokB ->
+  to_long tokA = Some (l, true, Some v) -> to_long tokB = Some (l, true, None) ->
+  lookup_long c l = Some a -> single_opt c a r -> plain_value a v -> fs_skip st = 0 ->
+  react c (Some ILong) SCmdLine a [v] None st = ROk x0 ->
+  res_rel c (parse_loop c (tokB :: v :: rest) ls st) (parse_loop c (tokA :: rest) ls st).
+Proof. exact long_space_vs_eq. Qed.
+Print Assumptions C08_long_space_vs_eq.
+
+Theorem C08_long_space_vs_eq_line : forall c0 bin l v a r tokA tokB rest x0,
+  is_set s_no_binary_name c0 = false ->
+  let c := build_self (top_cmd c0 bin) in
+  is_set s_ignore_errors c = false -> is_set s_sub_precedence c = false ->
+  flag_site c ls_top tokA -> flag_site c ls_top tokB ->
+  to_long tokA = Some (l, true, Some v) -> to_long tokB = Some (l, true, None) ->
+  lookup_long c l = Some a -> single_opt c a r -> plain_value a v ->
+  react c (Some ILong) SCmdLine a [v] None ps_new = ROk x0 ->
+  parse_top c0 (bin :: tokB :: v :: rest) = parse_top c0 (bin :: tokA :: rest).
+Proof. exact long_space_vs_eq_top. Qed.
+Print Assumptions C08_long_space_vs_eq_line.
+
+(** [-o v] = [-ov] = [-o=v] *)
+Theorem C08_short_site_meaning : forall c ls tok, short_site c ls tok <->
+  l_trailing ls = false /\ l_pst ls = PSValuesDone /\
+  match get_pos c (l_pos ls) with
+  | Some a => a_negnum a = false /\ (a_hyphen a && negb (a_last a)) = false
+  | None => True
+  end /\ possible_subcommand c tok (l_vaf ls) = None.
+Proof. exact (fun c ls tok => iff_refl _). Qed.
+Print Assumptions C08_short_site_meaning.
+
+Theorem C08_short_space_vs_att : forall c ch a r b t rA rB tokA tokB rest ls st x0,
+  is_set s_sub_precedence c = false ->
+  short_site c ls tokA -> short_site c ls tokB ->
+  to_short tokA = Some rA -> sf_next rA = Some (inl ch, b :: t) -> b <> 61 ->
+  to_short tokB = Some rB -> sf_next rB = Some (inl ch, []) ->
+  get_short c ch = Some a -> single_opt c a r -> plain_value a (b :: t) -> fs_skip st = 0 ->
+  react c (Some IShort) SCmdLine a [b :: t] None st = ROk x0 ->
+  res_rel c (parse_loop c (tokB :: (b :: t) :: rest) ls st) (parse_loop c (tokA :: rest) ls st).
+Proof. exact short_space_vs_att. Qed.
+Print Assumptions C08_short_space_vs_att.
+
+Theorem C08_short_eq_vs_att : forall c ch a b t rA rC tokA tokC rest ls st,
+  short_site c ls tokA -> short_site c ls tokC ->
+  to_short tokA = Some rA -> sf_next rA = Some (inl ch, b :: t) -> b <> 61 ->
+  to_short tokC = Some rC -> sf_next rC = Some (inl ch, 61 :: b :: t) ->
+  get_short c ch = Some a -> a_takes_value a = true -> a_req_eq a = false -> fs_skip st = 0 ->
+  parse_loop c (tokC :: rest) ls st = parse_loop c (tokA :: rest) ls st.
+Proof. exact short_eq_vs_att. Qed.
+Print Assumptions C08_short_eq_vs_att.
+
+Theorem C08_short_space_vs_att_line : forall c0 bin,
+  is_set s_no_binary_name c0 = false -> is_set s_ignore_errors (build_self (top_cmd c0 bin)) = false ->
+  forall ch a r b t rA rB tokA tokB rest x0,
+  let c := build_self (top_cmd c0 bin) in
+  is_set s_sub_precedence c = false ->
+  short_site c ls_top tokA -> short_site c ls_top tokB ->
+  to_short tokA = Some rA -> sf_next rA = Some (inl ch, b :: t) -> b <> 61 ->
+  to_short tokB = Some rB -> sf_next rB = Some (inl ch, []) ->
+  get_short c ch = Some a -> single_opt c a r -> plain_value a (b :: t) ->
+  react c (Some IShort) SCmdLine a [b :: t] None ps_new = ROk x0 ->
+  parse_top c0 (bin :: tokB :: (b :: t) :: rest) = parse_top c0 (bin :: tokA :: rest).
+Proof. exact short_space_vs_att_top. Qed.
+Print Assumptions C08_short_space_vs_att_line.
+
+Theorem C08_short_eq_vs_att_line : forall c0 bin,
+  is_set s_no_binary_name c0 = false -> is_set s_ignore_errors (build_self (top_cmd c0 bin)) = false ->
+  forall ch a b t rA rC tokA tokC rest,
+  let c := build_self (top_cmd c0 bin) in
+  short_site c ls_top tokA -> short_site c ls_top tokC ->
+  to_short tokA = Some rA -> sf_next rA = Some (inl ch, b :: t) -> b <> 61 ->
+  to_short tokC = Some rC -> sf_next rC = Some (inl ch, 61 :: b :: t) ->
+  get_short c ch = Some a -> a_takes_value a = true -> a_req_eq a = false ->
+  parse_top c0 (bin :: tokC :: rest) = parse_top c0 (bin :: tokA :: rest).
+Proof. exact short_eq_vs_att_top. Qed.
+Print Assumptions C08_short_eq_vs_att_line.
+
+(** clusters: [-a<rest>] = [-a] [-<rest>]; [-abc] = [-a] [-b] [-c]
+    (class: no short flag-subcommands, as in C01's totality theorem) *)
+Theorem C08_cluster_vs_split : forall c ch a r r1 r2 tok tok1 tok2 rest ls st,
+  (forall x, find_short_subcmd c x = None) ->
+  short_site c ls tok -> short_site c ls tok1 -> possible_subcommand c tok2 true = None ->
+  to_short tok = Some r -> sf_next r = Some (inl ch, r2) -> r2 <> [] ->
+  to_short tok1 = Some r1 -> sf_next r1 = Some (inl ch, []) -> to_short tok2 = Some r2 ->
+  get_short c ch = Some a -> a_takes_value a = false -> fs_skip st = 0 ->
+  parse_loop c (tok :: rest) ls st = parse_loop c (tok1 :: tok2 :: rest) ls st.
+Proof. exact cluster_vs_split. Qed.
+Print Assumptions C08_cluster_vs_split.
+
+Theorem C08_cluster_vs_singles : forall c,
+  (forall x, find_short_subcmd c x = None) -> (forall t vaf, possible_subcommand c (45 :: t) vaf = None) ->
+  forall chs ch0 rest ls st,
+  Forall (fun ch => ch < 128 /\ ch <> 45 /\ exists a, get_short c ch = Some a /\ a_takes_value a = false) (ch0 :: chs) ->
+  l_trailing ls = false -> l_pst ls = PSValuesDone -> no_hyphen_pos c (l_pos ls) -> fs_skip st = 0 ->
+  parse_loop c ((45 :: ch0 :: chs) :: rest) ls st =
+  parse_loop c (map (fun ch => [45; ch]) (ch0 :: chs) ++ rest) ls st.
+Proof. exact cluster_vs_singles. Qed.
+Print Assumptions C08_cluster_vs_singles.
+
+Theorem C08_cluster_vs_singles_line : forall c0 bin,
+  is_set s_no_binary_name c0 = false -> is_set s_ignore_errors (build_self (top_cmd c0 bin)) = false ->
+  forall chs ch0 rest,
+  let c := build_self (top_cmd c0 bin) in
+  (forall x, find_short_subcmd c x = None) -> (forall t vaf, possible_subcommand c (45 :: t) vaf = None) ->
+  Forall (fun ch => ch < 128 /\ ch <> 45 /\ exists a, get_short c ch = Some a /\ a_takes_value a = false) (ch0 :: chs) ->
+  no_hyphen_pos c 1 ->
+  parse_top c0 (bin :: (45 :: ch0 :: chs) :: rest) = parse_top c0 (bin :: map (fun ch => [45; ch]) (ch0 :: chs) ++ rest).
+Proof. exact cluster_vs_singles_top. Qed.
+Print Assumptions C08_cluster_vs_singles_line.
+
+(** the decidable sufficient conditions used in the examples are sound *)
+Theorem C08_class_criteria : forall c,
+  (forall i, opt_id_b c i = true -> forall k b, get_pos c k = Some b -> beq i (a_id b) = false) /\
+  (no_dash_names c = true -> forall t vaf, possible_subcommand c (45 :: t) vaf = None) /\
+  (no_short_subs_b c = true -> forall x, find_short_subcmd c x = None).
+Proof. exact (fun c => conj (opt_id_of_b c) (conj (dash_not_sub_of_b c) (no_short_subs_of_b c))). Qed.
+Print Assumptions C08_class_criteria.
+
+(** alias = canonical name, unique prefix = full name (any two spellings the lookup resolves alike) *)
+Theorem C08_long_respell : forall c l1 l2 v a tokA tokB rest ls st,
+  flag_site c ls tokA -> flag_site c ls tokB ->
+  to_long tokA = Some (l1, true, v) -> to_long tokB = Some (l2, true, v) ->
+  (is_nil l1 && negb (is_some v)) = false -> (is_nil l2 && negb (is_some v)) = false ->
+  lookup_long c l1 = Some a -> lookup_long c l2 = Some a ->
+  parse_loop c (tokA :: rest) ls st = parse_loop c (tokB :: rest) ls st.
+Proof. exact long_respell. Qed.
+Print Assumptions C08_long_respell.
+
+Theorem C08_long_alias_vs_name : forall c a l0 l vis v tokA tokB rest ls st,
+  long_unique c -> In a (c_args c) -> a_index a = None ->
+  a_long a = Some l0 -> In (l, vis) (a_aliases a) ->
+  flag_site c ls tokA -> flag_site c ls tokB ->
+  to_long tokA = Some (l, true, v) -> to_long tokB = Some (l0, true, v) ->
+  (is_nil l && negb (is_some v)) = false -> (is_nil l0 && negb (is_some v)) = false ->
+  parse_loop c (tokA :: rest) ls st = parse_loop c (tokB :: rest) ls st.
+Proof. exact long_alias_vs_name. Qed.
+Print Assumptions C08_long_alias_vs_name.
+
+Theorem C08_long_prefix_vs_name : forall c a p l0 v tokA tokB rest ls st,
+  lookup_long c p = Some a -> get_long c l0 = Some a ->
+  flag_site c ls tokA -> flag_site c ls tokB ->
+  to_long tokA = Some (p, true, v) -> to_long tokB = Some (l0, true, v) ->
+  (is_nil p && negb (is_some v)) = false -> (is_nil l0 && negb (is_some v)) = false ->
+  parse_loop c (tokA :: rest) ls st = parse_loop c (tokB :: rest) ls st.
+Proof. exact long_prefix_vs_name. Qed.
+Print Assumptions C08_long_prefix_vs_name.
+
+Theorem C08_short_respell : forall c ch1 ch2 a r1 r2 r' tokA tokB rest ls st,
+  (forall x, find_short_subcmd c x = None) ->
+  short_site c ls tokA -> short_site c ls tokB ->
+  to_short tokA = Some r1 -> sf_next r1 = Some (inl ch1, r') ->
+  to_short tokB = Some r2 -> sf_next r2 = Some (inl ch2, r') ->
+  get_short c ch1 = Some a -> get_short c ch2 = Some a -> fs_skip st = 0 ->
+  parse_loop c (tokA :: rest) ls st = parse_loop c (tokB :: rest) ls st.
+Proof. exact short_respell. Qed.
+Print Assumptions C08_short_respell.
+
+Theorem C08_long_respell_line : forall c0 bin,
+  is_set s_no_binary_name c0 = false -> is_set s_ignore_errors (build_self (top_cmd c0 bin)) = false ->
+  forall l1 l2 v a tokA tokB rest,
+  let c := build_self (top_cmd c0 bin) in
+  flag_site c ls_top tokA -> flag_site c ls_top tokB ->
+  to_long tokA = Some (l1, true, v) -> to_long tokB = Some (l2, true, v) ->
+  (is_nil l1 && negb (is_some v)) = false -> (is_nil l2 && negb (is_some v)) = false ->
+  lookup_long c l1 = Some a -> lookup_long c l2 = Some a ->
+  parse_top c0 (bin :: tokA :: rest) = parse_top c0 (bin :: tokB :: rest).
+Proof. exact long_respell_top. Qed.
+Print Assumptions C08_long_respell_line.
+
+Theorem C08_short_respell_line : forall c0 bin,
+  is_set s_no_binary_name c0 = false -> is_set s_ignore_errors (build_self (top_cmd c0 bin)) = false ->
+  forall ch1 ch2 a r1 r2 r' tokA tokB rest,
+  let c := build_self (top_cmd c0 bin) in
+  (forall x, find_short_subcmd c x = None) -> short_site c ls_top tokA -> short_site c ls_top tokB ->
+  to_short tokA = Some r1 -> sf_next r1 = Some (inl ch1, r') ->
+  to_short tokB = Some r2 -> sf_next r2 = Some (inl ch2, r') ->
+  get_short c ch1 = Some a -> get_short c ch2 = Some a ->
+  parse_top c0 (bin :: tokA :: rest) = parse_top c0 (bin :: tokB :: rest).
+Proof. exact short_respell_top. Qed.
+Print Assumptions C08_short_respell_line.
+
+(** the occurrence behind a prefix of separate flag tokens (successful lines) *)
+Theorem C08_flags_prefix_congr : forall c X Y,
+  (forall t vaf, possible_subcommand c (45 :: t) vaf = None) ->
+  forall chs ls st,
+  Forall (fun ch => ch < 128 /\ ch <> 45 /\ exists a, get_short c ch = Some a /\ a_takes_value a = false) chs ->
+  l_trailing ls = false -> l_pst ls = PSValuesDone -> no_hyphen_pos c (l_pos ls) -> fs_skip st = 0 ->
+  (forall ls' st' lr, l_trailing ls' = false -> l_pst ls' = PSValuesDone -> l_pos ls' = l_pos ls -> fs_skip st' = 0 ->
+     parse_loop c X ls' st' = ROk lr -> res_rel c (parse_loop c Y ls' st') (ROk lr)) ->
+  forall lr, parse_loop c (map (fun ch => [45; ch]) chs ++ X) ls st = ROk lr ->
+  res_rel c (parse_loop c (map (fun ch => [45; ch]) chs ++ Y) ls st) (ROk lr).
+Proof. exact flags_prefix_congr. Qed.
+Print Assumptions C08_flags_prefix_congr.
+
+Theorem C08_after_flags_long_space_vs_eq_line : forall c0 bin chs l v a r tokA tokB rest m,
+  is_set s_no_binary_name c0 = false ->
+  let c := build_self (top_cmd c0 bin) in
+  is_set s_ignore_errors c = false -> is_set s_sub_precedence c = false ->
+  (forall t vaf, possible_subcommand c (45 :: t) vaf = None) ->
+  Forall (fun ch => ch < 128 /\ ch <> 45 /\ exists a, get_short c ch = Some a /\ a_takes_value a = false) chs ->
+  no_hyphen_pos c 1 ->
+  is_escape tokA = false -> is_escape tokB = false ->
+  possible_subcommand c tokA false = None -> possible_subcommand c tokB false = None ->
+  to_long tokA = Some (l, true, Some v) -> to_long tokB = Some (l, true, None) ->
+  lookup_long c l = Some a -> single_opt c a r -> plain_value a v ->
+  parse_top c0 (bin :: map (fun ch => [45; ch]) chs ++ tokA :: rest) = OOk m ->
+  parse_top c0 (bin :: map (fun ch => [45; ch]) chs ++ tokB :: v :: rest) = OOk m.
+Proof. exact after_flags_long_space_vs_eq_top. Qed.
+Print Assumptions C08_after_flags_long_space_vs_eq_line.
+
+Theorem C08_flags_prefix_congr_eq : forall c X Y,
+  (forall t vaf, possible_subcommand c (45 :: t) vaf = None) ->
+  forall chs ls st,
+  Forall (fun ch => ch < 128 /\ ch <> 45 /\ exists a, get_short c ch = Some a /\ a_takes_value a = false) chs ->
+  l_trailing ls = false -> l_pst ls = PSValuesDone -> no_hyphen_pos c (l_pos ls) -> fs_skip st = 0 ->
+  (forall ls' st', l_trailing ls' = false -> l_pst ls' = PSValuesDone -> l_pos ls' = l_pos ls -> fs_skip st' = 0 ->
+     parse_loop c X ls' st' = parse_loop c Y ls' st') ->
+  parse_loop c (map (fun ch => [45; ch]) chs ++ X) ls st = parse_loop c (map (fun ch => [45; ch]) chs ++ Y) ls st.
+Proof. exact flags_prefix_congr_eq. Qed.
+Print Assumptions C08_flags_prefix_congr_eq.
+
+Theorem C08_after_flags_long_respell : forall c chs l1 l2 v a tokA tokB rest ls st,
+  (forall t vaf, possible_subcommand c (45 :: t) vaf = None) ->
+  Forall (fun ch => ch < 128 /\ ch <> 45 /\ exists a, get_short c ch = Some a /\ a_takes_value a = false) chs ->
+  l_trailing ls = false -> l_pst ls = PSValuesDone -> no_hyphen_pos c (l_pos ls) -> fs_skip st = 0 ->
+  is_escape tokA = false -> is_escape tokB = false ->
+  possible_subcommand c tokA false = None -> possible_subcommand c tokB false = None ->
+  to_long tokA = Some (l1, true, v) -> to_long tokB = Some (l2, true, v) ->
+  (is_nil l1 && negb (is_some v)) = false -> (is_nil l2 && negb (is_some v)) = false ->
+  lookup_long c l1 = Some a -> lookup_long c l2 = Some a ->
+  parse_loop c (map (fun ch => [45; ch]) chs ++ tokA :: rest) ls st =
+  parse_loop c (map (fun ch => [45; ch]) chs ++ tokB :: rest) ls st.
+Proof. exact after_flags_long_respell. Qed.
+Print Assumptions C08_after_flags_long_respell.
+
+(** observation: the success hypothesis is needed (different error kinds for a rejected value) *)
+Theorem C08_spelling_needs_success_witness : exists c0 tokA tokB v rest,
+  out_kind (parse_top c0 ([112] :: tokA :: rest)) = Some EInvalidUtf8 /\
+  out_kind (parse_top c0 ([112] :: tokB :: v :: rest)) = Some EUnknownArgument.
+Proof. exact spelling_needs_success_witness. Qed.
+Print Assumptions C08_spelling_needs_success_witness.
